@@ -1305,6 +1305,12 @@ class Interp:
         fn_g = [self.canon_ty(crate, subst(g, tenv)) for g in segs[-1][1]]
         path = '::'.join(names)
         cand = self._lookup_free(crate, path)
+        if not cand and len(names) >= 3:
+            # fn item nested in a method:  mod::Type::method::inner  is dumped as  mod::<impl at ..>::method::inner
+            inner, outer = names[-1], names[-2]
+            cs = [n for n in self.p.by_last.get(inner, []) if re.search(r'<impl at [^>]*>::' + re.escape(outer) + r'::' + re.escape(inner) + r'(#\d+)?$', n) and n.startswith(crate + '::')]
+            if len(cs) == 1:
+                cand = cs[0]
         if cand:
             return cand, self.bind_fn_generics(cand, {}, fn_g, ctx)
         if len(segs) >= 2:
